@@ -183,6 +183,21 @@ def cases(rnd: random.Random, thorough: bool) -> list[Case]:
         A(Case("set_mix_valve_params", (CTL, rnd.choice(IDX_OK)), kw, True, dict(kw)))
     for kw in (dict(max_flow_setpoint=100), dict(min_flow_setpoint=51), dict(valve_run_time=241), dict(pump_run_time=100), dict(max_flow_setpoint=-1)):
         A(Case("set_mix_valve_params", (CTL, 1), kw, False, {}))
+    # --- modes x target x until x duration, swept (whether refused or built is the model's business; a built frame must decode,
+    #     and to the mode that was named)
+    mode_names = {"00": "follow_schedule", "01": "advanced_override", "02": "permanent_override", "03": "countdown_override", "04": "temporary_override"}
+    for m in (None, 0, 1, 2, 3, 4, 5, -1, "00", "02", "03", "04", "05", "follow_schedule", "temporary_override", "countdown_override", "COUNTDOWN", "bogus", ""):
+        for has_target in (False, True):
+            for u in (None, dt(2025, 1, 2, 3, 4)):
+                for du in (None, 0, 30, -1, 0xFFFFFF + 1):
+                    hexm = f"{m:02X}" if isinstance(m, int) else m
+                    exp = {"mode": mode_names[hexm]} if hexm in mode_names else ({"mode": m} if m in mode_names.values() else {})
+                    kw = dict(mode=m, until=u, duration=du)
+                    A(Case("set_zone_mode", (CTL, 1), {**kw, "setpoint": 21.5 if has_target else None}, False, exp, tag="sweep"))
+                    A(Case("set_dhw_mode", (CTL,), {**kw, "active": True if has_target else None}, False, exp, tag="sweep" if du is None else "sweep-duration"))
+    for m in (None, 0, 1, 6, 7, 8, -1, "00", "03", "07", "08", "auto", "away", "custom", "au_00", "bogus"):
+        for u in (None, dt(2025, 1, 2, 3, 4)):
+            A(Case("set_system_mode", (CTL, m), dict(until=u), False, {}, tag="sweep"))
     # --- OpenTherm: all 256 ids
     from ramses_tx.opentherm import OPENTHERM_MESSAGES
 
@@ -320,6 +335,10 @@ MODELLED = {
     "get_zone_window_state": "12B0", "set_zone_setpoint": "2309", "put_sensor_temp": "30C9", "put_dhw_temp": "1260",
     "get_dhw_params": "10A0", "get_dhw_temp": "1260", "set_dhw_params": "10A0", "set_zone_config": "000A",
     "get_relay_demand": "0008",
+    "get_system_mode": "2E04", "get_system_time": "313F", "get_schedule_version": "0006", "get_system_language": "0100",
+    "get_dhw_mode": "1F41", "get_mix_valve_params": "1030", "get_tpi_params": "1100", "set_system_mode": "2E04",
+    "set_system_time": "313F", "set_dhw_mode": "1F41", "set_zone_mode": "2349", "set_mix_valve_params": "1030",
+    "set_tpi_params": "1100", "set_zone_name": "0004",
 }
 
 
@@ -356,9 +375,80 @@ def _model_compare(D: Diff, c: Case, cmd, out=None) -> None:
             return
         args = [c.name, esc(c.args[0]), ix(c.args[1]), f(c.kwargs.get("min_temp", 5)), f(c.kwargs.get("max_temp", 35)),
                 str(c.kwargs.get("local_override", False)), str(c.kwargs.get("openwindow_function", False)), str(c.kwargs.get("multiroom_mode", False))]
+    elif c.name in ("get_system_mode", "get_system_time", "get_schedule_version", "get_system_language"):
+        if c.kwargs or len(c.args) != 1:
+            return
+        args = [c.name, esc(c.args[0])]
+    elif c.name == "get_dhw_mode":
+        args = [c.name, esc(c.args[0]), ix(c.kwargs.get("dhw_idx", 0))]
+    elif c.name == "get_mix_valve_params":
+        args = [c.name, esc(c.args[0]), ix(c.args[1])]
+    elif c.name == "get_tpi_params":
+        dom = c.kwargs.get("domain_id")
+        args = [c.name, esc(c.args[0]), "None" if dom is None else ix(dom)]
+    elif c.name == "set_system_mode":
+        u = c.kwargs.get("until")
+        if not _plain_dt(u) or not _plain_mode(c.args[1]) or set(c.kwargs) - {"until"}:
+            return
+        args = [c.name, esc(c.args[0]), mo(c.args[1]), dtm(u)]
+    elif c.name == "set_system_time":
+        if not _plain_dt(c.args[1]) or c.args[1] is None or not isinstance(c.kwargs.get("is_dst", False), bool):
+            return
+        args = [c.name, esc(c.args[0]), dtm(c.args[1]), str(c.kwargs.get("is_dst", False))]
+    elif c.name in ("set_dhw_mode", "set_zone_mode"):
+        kw = dict(c.kwargs)
+        u, du, m = kw.pop("until", None), kw.pop("duration", None), kw.pop("mode", None)
+        if not _plain_dt(u) or not _plain_mode(m) or not (du is None or (isinstance(du, int) and not isinstance(du, bool))):
+            return
+        if c.name == "set_dhw_mode":
+            a, i = kw.pop("active", None), kw.pop("dhw_idx", 0)
+            if kw or not (a is None or isinstance(a, bool)) or len(c.args) != 1:
+                return
+            args = [c.name, esc(c.args[0]), ix(i), mo(m), str(a), dtm(u), str(du)]
+        else:
+            sp = kw.pop("setpoint", None)
+            if kw or not (sp is None or (isinstance(sp, (int, float)) and not isinstance(sp, bool))) or len(c.args) != 2:
+                return
+            args = [c.name, esc(c.args[0]), ix(c.args[1]), mo(m), f(sp), dtm(u), str(du)]
+    elif c.name == "set_mix_valve_params":
+        kw = dict(c.kwargs)
+        vals = [kw.pop(k, d) for k, d in (("max_flow_setpoint", 55), ("min_flow_setpoint", 15), ("valve_run_time", 150), ("pump_run_time", 15), ("boolean_cc", 1))]
+        if kw or not all(isinstance(v, int) and not isinstance(v, bool) for v in vals):
+            return
+        args = [c.name, esc(c.args[0]), ix(c.args[1])] + [str(v) for v in vals]
+    elif c.name == "set_tpi_params":
+        kw = dict(c.kwargs)
+        vals = [kw.pop(k, d) for k, d in (("cycle_rate", 3), ("min_on_time", 5), ("min_off_time", 5))]
+        pbw = kw.pop("proportional_band_width", None)
+        if kw or not all(isinstance(v, int) and not isinstance(v, bool) for v in vals) or not (pbw is None or (isinstance(pbw, (int, float)) and not isinstance(pbw, bool))):
+            return
+        args = [c.name, esc(c.args[0]), "None" if c.args[1] is None else ix(c.args[1])] + [str(v) for v in vals] + [f(pbw)]
+    elif c.name == "set_zone_name":
+        if c.kwargs or not isinstance(c.args[2], str) or "\t" in c.args[2] or "\n" in c.args[2]:
+            return
+        args = [c.name, esc(c.args[0]), ix(c.args[1]), esc(c.args[2])]
     else:
         return
     D.add("build", args, out if out is not None else "ok\t" + esc(str(cmd)))
+    D.chk.count("model.build." + c.name + (".ok" if out is None else ".refused"))
+
+
+def _plain_dt(u) -> bool:
+    from datetime import datetime as _dt
+
+    return u is None or (type(u) is _dt and u.tzinfo is None)
+
+
+def _plain_mode(m) -> bool:
+    return m is None or (isinstance(m, (int, str)) and not isinstance(m, bool))
+
+
+def mo(m) -> str:
+    return "None" if m is None else ("i" + str(m) if isinstance(m, int) else "s" + esc(m))
+
+
+def dtm(u) -> str:
+    return "None" if u is None else f"{u.year},{u.month},{u.day},{u.hour},{u.minute},{u.second}"
 
 
 def replay(chk: Check, path: str) -> int:
